@@ -175,6 +175,13 @@ def _case_h2(rng, tier, n, h2c=False):
         for req in reqs:
             blob += G.serialize_h2(fb, req, req["sid"], scheme=b"https" if tls else b"http")
         client.append(["feed_split", bytes(blob), G.gen_splits(rng, len(blob), rng.choice(["one", "two", "k"]))])
+        if iw >= 16383 and rng.random() < 0.12:
+            # the client lowers SETTINGS_INITIAL_WINDOW_SIZE while responses are stalled (windows go negative), then re-opens them
+            rspec["credit"] = "none"
+            need = sum(r_["total"] for r_ in resps) + 10
+            client.append(["react", "settings", {"4": iw // 2}])
+            client.append(["react", "window_update", 0, need])
+            client.append(["react", "settings", {"4": min((1 << 31) - 1, iw + need)}])
     client.append(["settle"])
     return {"family": "h2c" if h2c else ("h2.tls" if tls else "h2.prior"), "backends": ["asyncio", "trio"],
             "config": config, "conn": {"tls": tls, "alpn": "h2" if tls else None},
